@@ -1,4 +1,5 @@
 import Rustemo.Proofs.FrontTotal
+import Rustemo.Proofs.FrontClash
 /-!
 # `Front.build` never panics on a `Safe` AST
 -/
@@ -107,14 +108,9 @@ theorem ruleSteps_allNone {cx : Ctx} :
     unfold ruleSteps at h
     obtain ⟨st1, h1, h2⟩ := Outcome.bind_eq_ok.mp h
     refine ruleSteps_allNone ?_ h2
-    unfold ruleStep at h1
-    split at h1
-    · cases h1
-    · split at h1
-      · cases h1
-      · split at h1
-        · exact altSteps_allNone hx h1
-        · exact altSteps_allNone (st := { st with nextNt := st.nextNt + 1 }) hx h1
+    rcases ruleStep_ok h1 with ⟨nt, hf, h1⟩ | ⟨hf, h1⟩
+    · exact altSteps_allNone hx h1
+    · exact altSteps_allNone (st := { st with nextNt := st.nextNt + 1 }) hx h1
 
 theorem createAug_allNone {a b : Name} {st : XSt} (hx : AllNone st.prods) : AllNone (createAug a b st).prods := by
   show AllNone (st.prods ++ [_])
@@ -141,7 +137,7 @@ theorem extract_allNone {cx : Ctx} {r0 : Rule} {rules : List Rule} {st : XSt}
 /-- ASTs outside the classes of the panic witnesses.  Each field is one finding class:
 `ints` F9 (integer literal), `rules0` (an empty rule list: no text produces one), `rules` F9
 (terminals-only file), `refs` F9 (groups, greedy operators, several modifiers), `alts` (a rule without
-alternative: no text produces one), `dupT` (duplicate terminal names, unless the variant rejects them), `selfH` (a rule named like a
+alternative: no text produces one), `dupT` (duplicate terminal names, unless the variant rejects them), `selfH` (unless the variant reports helper-name clashes: a rule named like a
 helper of its own references). -/
 structure Safe (fx : Fixes) (f : File) : Prop where
   ints : fx.intErr = true ∨ f.big u32Max = false
@@ -150,7 +146,7 @@ structure Safe (fx : Fixes) (f : File) : Prop where
   refs : ∀ r, r ∈ f.ruleList → RuleSafe fx r
   alts : ∀ r, r ∈ f.ruleList → r.alts ≠ []
   dupT : fx.dupNameErr = true ∨ f.dupTerminal = false
-  selfH : f.selfHelper fx = false
+  selfH : fx.helperClashErr = true ∨ f.selfHelper fx = false
 
 theorem staticMatches_eq {fx : Fixes} {f : File} {ts : TSt} (h : termPhase fx f = .ok ts) :
     staticMatches fx f = matchesOf f ts := by
@@ -171,6 +167,26 @@ theorem ruleAvoids_of_selfHelper {fx : Fixes} {f : File} {ts : TSt} (h : termPha
     exact ⟨u, List.mem_flatMap.mpr ⟨alt, halt, hu⟩, by simpa using e'⟩
   rw [this] at hs
   cases hs
+
+/-- no rule's own uses generate its name: by the static class, or (C09-fix-9) because the rule phase
+checked every helper name against the rule names -/
+theorem ruleAvoids_of_ext {fx : Fixes} {f : File} {ts : TSt} {r0 : Rule} {rs : List Rule} {st : XSt}
+    (hs : fx.helperClashErr = true ∨ f.selfHelper fx = false) (hts : termPhase fx f = .ok ts)
+    (hrl : f.ruleList = r0 :: rs) (hext : extract (ctxOf fx f ts) r0 (r0 :: rs) = .ok st)
+    (r : Rule) (hr : r ∈ f.ruleList) : RuleAvoids (ctxOf fx f ts) r := by
+  rcases hs with hflag | hs
+  · intro alt halt u hu e
+    have hmem : u ∈ rulesUses (ctxOf fx f ts).matchesMap (r0 :: rs) := by
+      rw [← hrl]
+      unfold rulesUses ruleUses
+      exact List.mem_flatMap.mpr ⟨r, hr, List.mem_flatMap.mpr ⟨alt, halt, hu⟩⟩
+    have := (extract_clashFree (cx := ctxOf fx f ts) hflag hext u hmem).1
+    apply this
+    rw [e]
+    show r.name ∈ ruleNamesOf f
+    unfold ruleNamesOf
+    exact List.mem_map_of_mem (f := (·.name)) (show r ∈ f.rules.getD [] from hr)
+  · exact ruleAvoids_of_selfHelper hts hs r hr
 
 theorem length_setReachNts (m : List Nat) : ∀ (i : Nat) (l : List NonTerm), (setReachNts m i l).length = l.length
   | _, [] => rfl
@@ -241,7 +257,7 @@ theorem build_total (fx : Fixes) (f : File) (hs : Safe fx f) : NoPanic (build fx
   have hrl : f.ruleList = r0 :: rs := by simp [File.ruleList, hr]
   have hw : ∀ r, r ∈ r0 :: rs → RuleAvoids (ctxOf fx f ts) r ∧ r.alts ≠ [] := by
     intro r hrm
-    exact ⟨ruleAvoids_of_selfHelper hts hs.selfH r (hrl ▸ hrm), hs.alts r (hrl ▸ hrm)⟩
+    exact ⟨ruleAvoids_of_ext hs.selfH hts hrl hext r (hrl ▸ hrm), hs.alts r (hrl ▸ hrm)⟩
   obtain ⟨hN, hAug, hRules⟩ := extract_nts hw hext
   have hX := extract_xidx hext
   have hNone := extract_allNone hext
